@@ -101,6 +101,16 @@ def run(ck):
         items.append({"id": n, "kind": "spec" if n in mutated else "rawspec", "text": specs[n]})
     for n, t in DEGENERATE.items():
         items.append({"id": n, "kind": "rawspec", "text": t})
+    # every ill-formed and well-formed specification of C07's generator (declaration kinds in every order, each defect
+    # one at a time and in pairs): the entry points must survive all of them, whatever they answer
+    g = ck.tlc("SpecPoolGen", constants={"K": 3, "MaxDecls": 3, "MaxExtra": 2}, workers=4, count=False, timeout=1200)
+    if "GENERATED" not in g.out:
+        raise vp.Infra("SpecPoolGen failed:\n" + g.out[-2000:])
+    ck.run_harness(["ebnf-print", "-in", "tla/gen_specs.ndjson", "-out", "tla/gen_texts.ndjson"])
+    pool_texts = vp.read_ndjson(os.path.join(ck.work, "tla", "gen_texts.ndjson"))
+    if quick:
+        pool_texts = rnd.sample(pool_texts, min(len(pool_texts), 5000))
+    items += [{"id": "pool-%d" % i, "kind": "rawspec", "text": t["text"]} for i, t in enumerate(pool_texts)]
     pats = list(SPECIAL_PATTERNS)
     for l in (1, 2, 3):
         for w in itertools.product(PATTERN_ALPHABET, repeat=l):
